@@ -25,7 +25,7 @@ import (
 //	kex:  both roles of the key exchange with and without confirmation
 func transcript(x *mon.Ctx) {
 	selfTest(x)
-	reps := x.Scale(1, 8)
+	reps := x.Scale(1, 12)
 	for rep := 0; rep < reps; rep++ {
 		for i := 0; i <= 200; i++ {
 			hid := hids[(i+rep)%4]
